@@ -136,7 +136,9 @@ def case_warning(fam):
         # the chosen cells about a plane through the cell centroid (connectivity untouched, orientation inverted)
         P = mesh.points[mesh.cells]
         cells = np.arange(P.shape[0] * P.shape[1]).reshape(P.shape[0], P.shape[1])
-        for trial in range(3):
+        for trial in range(5):
+            # the report does not depend on the length unit (micro-scale geometry in metres: dV of 1e-15 and below)
+            P = mesh.points[mesh.cells] * [1.0, 1.0, 1.0, 1e-5, 1e-7][trial]
             k = int(rng.integers(1, min(4, mesh.ncells)))
             bad = np.sort(rng.choice(mesh.ncells, size=k, replace=False))
             Q = P.copy()
